@@ -5,6 +5,6 @@ set -e
 VERIF="$(cd "$(dirname "$0")/.." && pwd)"
 REPO="${VERIF_REPO:-/repo}"
 export GOFLAGS=-mod=mod GOPROXY=off GOSUMDB=off GOTOOLCHAIN=local
-mkdir -p "$VERIF/build/tools" "$VERIF/coq/gen"
+mkdir -p "$VERIF/build/tools" "${VERIF_COQ:-$VERIF/coq}/gen"
 ( cd "$VERIF/tools/lockfacts" && go build -o "$VERIF/build/tools/lockfacts" . )
-"$VERIF/build/tools/lockfacts" -repo "$REPO" -o "$VERIF/coq/gen/LockFacts.v"
+"$VERIF/build/tools/lockfacts" -repo "$REPO" -o "${VERIF_COQ:-$VERIF/coq}/gen/LockFacts.v"
